@@ -64,7 +64,13 @@ pub fn create_accounts(deps: &mut DepsMut, accounts: &[Cw20Coin]) -> StdResult<U
     let mut total_supply = Uint128::zero();
     for row in accounts {
         let address = deps.api.addr_canonicalize(&row.address)?;
-        BALANCES.save(deps.storage, address.as_slice(), &row.amount)?;
+        // the same address may appear in several rows: add up instead of overwriting,
+        // otherwise total_supply would exceed the sum of the balances
+        BALANCES.update(
+            deps.storage,
+            address.as_slice(),
+            |balance: Option<Uint128>| -> StdResult<_> { Ok(balance.unwrap_or_default() + row.amount) },
+        )?;
         total_supply += row.amount;
     }
     Ok(total_supply)
